@@ -56,7 +56,9 @@ def _case(draw):
     fe = draw(st.sampled_from(frontends.ALL))
     framing = draw(st.sampled_from(['tcp', 'rtu', 'ascii', 'binary']))
     single = draw(st.sampled_from([False, False, True]))
-    hosted = sorted(draw(st.lists(st.one_of(st.sampled_from([0, 1, 2, 247]), st.integers(0, 247)), min_size=1, max_size=5, unique=True))) if not single else [0]
+    # hosting unit 0 switches the framers' unit filter off: most multi-unit contexts are drawn without it
+    lowest = draw(st.sampled_from([1, 1, 0]))
+    hosted = sorted(draw(st.lists(st.one_of(st.sampled_from([lowest, 1, 2, 247]), st.integers(lowest, 247)), min_size=1, max_size=5, unique=True))) if not single else [0]
     bcast = draw(st.booleans()) if frontends.HAS_BROADCAST[fe] else False
     steps = []
     for i in range(draw(st.integers(1, 5))):
